@@ -92,6 +92,7 @@ type scEngine struct {
 	// because such a test was explored both ways, the argument may well be
 	// validated in a form the analysis does not interpret -- no verdict.
 	undecidedOnSubject []string
+	memoTests          map[string][]string // unevaluable tests met while computing a memoised summary
 	// assumeReject: second pass -- every validation-shaped test of the subject
 	// that the oracle cannot evaluate is assumed to reject the argument
 	assumeReject bool
@@ -682,6 +683,21 @@ func (c *simCtx) oracleCmp(b *ssa.BinOp) (bool, bool) {
 	}
 	switch c.sc.Kind {
 	case scRegion, scEmpty:
+		// both sides bounded: the subject's region against a quantity of known sign / size
+		if xlo, xhi, ok := c.regionOf(b.X); ok {
+			if ylo, yhi, ok := c.boundsOf(b.Y, 0); ok {
+				if out, known := decideCmp2(b.Op, xlo, xhi, ylo, yhi); known {
+					return out, true
+				}
+			}
+		}
+		if ylo, yhi, ok := c.regionOf(b.Y); ok {
+			if xlo, xhi, ok := c.boundsOf(b.X, 0); ok {
+				if out, known := decideCmp2(b.Op, xlo, xhi, ylo, yhi); known {
+					return out, true
+				}
+			}
+		}
 		if k, ok := c.constUnder(b.Y); ok {
 			if lo, hi, ok := c.regionOf(b.X); ok {
 				return decideCmp(b.Op, lo, hi, k)
@@ -800,6 +816,16 @@ func (c *simCtx) oracleCmp(b *ssa.BinOp) (bool, bool) {
 func (c *simCtx) intConstOf(v ssa.Value) (int64, bool) {
 	if k, ok := constInt(v); ok {
 		return k, true
+	}
+	if b, ok := resolve(v).(*ssa.BinOp); ok && (b.Op == token.ADD || b.Op == token.SUB) {
+		x, okx := c.intConstOf(b.X)
+		y, oky := c.intConstOf(b.Y)
+		if okx && oky {
+			if b.Op == token.ADD {
+				return x + y, true
+			}
+			return x - y, true
+		}
 	}
 	if p, ok := resolve(v).(*ssa.Parameter); ok && c.sc.Consts != "" {
 		pre := fmt.Sprintf(",%d=#", paramIndex(c.f, p))
@@ -1077,14 +1103,25 @@ func (e *scEngine) alwaysFails(g *ssa.Function, sc scenario, depth int) bool {
 	key := fmt.Sprintf("%p/%v/%v", g, sc, e.assumeReject)
 	switch e.memo[key] {
 	case 1:
+		e.undecidedOnSubject = append(e.undecidedOnSubject, e.memoTests[key]...)
 		return true
 	case 2, 3:
+		e.undecidedOnSubject = append(e.undecidedOnSubject, e.memoTests[key]...)
 		return false
 	}
 	if depth > 6 {
 		return false
 	}
 	e.memo[key] = 3
+	before := len(e.undecidedOnSubject)
+	defer func() {
+		if e.memoTests == nil {
+			e.memoTests = map[string][]string{}
+		}
+		if before <= len(e.undecidedOnSubject) {
+			e.memoTests[key] = append([]string{}, e.undecidedOnSubject[before:]...)
+		}
+	}()
 	ok, _ := e.check(g, sc, depth)
 	if ok {
 		e.memo[key] = 1
@@ -1574,4 +1611,112 @@ func (c *simCtx) arith(v ssa.Value, depth int) bool {
 		return true
 	}
 	return false
+}
+
+// boundsOf: bounds of a quantity that does not depend on the subject but has
+// a known shape: a constant, 2^z (CalculateArithmeticShift(1, z), 1 << z,
+// math.Pow(2, z), math.Ldexp(1, z)) which is at least 1, its negation, +-
+// constants, and conversions that keep the value.
+func (c *simCtx) boundsOf(v ssa.Value, depth int) (float64, float64, bool) {
+	if depth > 5 {
+		return 0, 0, false
+	}
+	if cv, ok := v.(*ssa.Convert); ok {
+		lo, hi, ok := c.boundsOf(cv.X, depth+1)
+		if !ok {
+			return 0, 0, false
+		}
+		if bt, isB := cv.Type().Underlying().(*types.Basic); isB && bt.Info()&types.IsUnsigned != 0 && lo < 0 {
+			return 0, 0, false
+		}
+		return lo, hi, true
+	}
+	v = resolve(v)
+	if k, ok := c.constUnder(v); ok {
+		return k, k, true
+	}
+	big := math.Pow(2, 62)
+	switch x := v.(type) {
+	case *ssa.Call:
+		if calleeIs(x, modPath+"/common", "CalculateArithmeticShift") {
+			if k, ok := constInt(x.Call.Args[0]); ok && k == 1 {
+				return 0, big, true // 2^z, or 0 when shifted out
+			}
+		}
+		if calleeIs(x, "math", "Pow") {
+			if k, ok := constFloat(x.Call.Args[0]); ok && k == 2 {
+				return 0, math.Inf(1), true
+			}
+		}
+		if calleeIs(x, "math", "Ldexp") {
+			if k, ok := constFloat(x.Call.Args[0]); ok && k == 1 {
+				return 0, math.Inf(1), true
+			}
+		}
+	case *ssa.BinOp:
+		switch x.Op {
+		case token.SHL:
+			if k, ok := constInt(x.X); ok && k == 1 {
+				return 0, big, true
+			}
+		case token.ADD, token.SUB:
+			alo, ahi, ok1 := c.boundsOf(x.X, depth+1)
+			blo, bhi, ok2 := c.boundsOf(x.Y, depth+1)
+			if ok1 && ok2 {
+				if x.Op == token.ADD {
+					return alo + blo, ahi + bhi, true
+				}
+				return alo - bhi, ahi - blo, true
+			}
+		}
+	case *ssa.UnOp:
+		if x.Op == token.SUB {
+			lo, hi, ok := c.boundsOf(x.X, depth+1)
+			return -hi, -lo, ok
+		}
+	}
+	return 0, 0, false
+}
+
+// decideCmp2: x op y for every x in [xlo,xhi] and y in [ylo,yhi]?
+func decideCmp2(op token.Token, xlo, xhi, ylo, yhi float64) (bool, bool) {
+	switch op {
+	case token.LSS:
+		if xhi < ylo {
+			return true, true
+		}
+		if xlo >= yhi {
+			return false, true
+		}
+	case token.LEQ:
+		if xhi <= ylo {
+			return true, true
+		}
+		if xlo > yhi {
+			return false, true
+		}
+	case token.GTR:
+		if xlo > yhi {
+			return true, true
+		}
+		if xhi <= ylo {
+			return false, true
+		}
+	case token.GEQ:
+		if xlo >= yhi {
+			return true, true
+		}
+		if xhi < ylo {
+			return false, true
+		}
+	case token.EQL:
+		if xhi < ylo || xlo > yhi {
+			return false, true
+		}
+	case token.NEQ:
+		if xhi < ylo || xlo > yhi {
+			return true, true
+		}
+	}
+	return false, false
 }
